@@ -105,7 +105,12 @@ theorem appendBatch_lift_C3b (cs : List Closed) (es : List (LogId × Bytes)) :
   | cons e rest ih =>
     intro fsHas s seg effs
     obtain ⟨id, p⟩ := e
-    unfold Store.appendBatch
+    by_cases hidxD12 : id.index + 1 = U64
+    · rw [appendBatch_cons_refused_D12 _ _ _ _ _ _ _ hidxD12,
+        appendBatch_cons_refused_D12 _ _ _ _ _ _ _ hidxD12]
+      rfl
+    rw [appendBatch_cons_small_D12 _ _ _ _ _ _ _ hidxD12,
+      appendBatch_cons_small_D12 _ _ _ _ _ _ _ hidxD12]
     rw [appendAndApply_lift_C3b]
     generalize s.appendAndApply fsHas (.append id p) = x
     obtain ⟨res, s', e'⟩ := x
@@ -153,11 +158,12 @@ theorem flush_lift_C3b (s : Store) (cs : List Closed) (cb : Option Nat) :
 /-- A purge that is not a no-op: the caller journals the record, then pops. -/
 theorem call_purge_C3b (s : Store) (fsHas : Nat → Bool) (upto : LogId) (nxt : Nat)
     (hn : nextIndexChecked s.st.purged = some nxt) (hlt : ¬ upto.index < nxt)
+    (hidx : upto.index + 1 ≠ U64)
     {seg : Seg} {s' : Store} {effs : List Eff}
     (h : s.appendAndApply fsHas (.purgeUpto upto) = (.ok seg, s', effs)) :
     s.call fsHas (.purge upto) = (.ok seg,
       { s' with closed := (popObsolete upto s'.closed).2,
                 removed := s'.removed ++ (popObsolete upto s'.closed).1 }, effs) := by
-  simp only [Store.call, hn, hlt, if_false, h]
+  simp only [Store.call, if_neg hidx, hn, hlt, if_false, h]
 
 end RaftLog
